@@ -235,6 +235,25 @@ fn main() {
         out.push(serde_json::json!({"scenario": "recompiled_template_after_unrelated_one", "check": "pool_buffers", "ok": before == after,
             "detail": format!("error of the failing template before {:?} and after an unrelated template (with an attribute assignment) was compiled and removed {:?}", before, after)}));
     }
+    // ---- render states are told apart process-wide: a macro value that left render A (on one thread) cannot be
+    //      run inside render B (on another thread) - it is refused, it does not see B's data
+    {
+        let mut env = Environment::new();
+        env.add_template("t", "{% macro who_am_i() %}[{{ who }}]{% endmacro %}{{ who_am_i() }}").unwrap();
+        let env = &env;
+        let result = std::thread::scope(|s| {
+            let macro_of_a: Value = s.spawn(move || {
+                let captured = env.get_template("t").unwrap().render_captured(context! { who => "A" }).unwrap();
+                captured.state().lookup("who_am_i").unwrap()
+            }).join().unwrap();
+            s.spawn(move || {
+                let mut captured = env.get_template("t").unwrap().render_captured(context! { who => "B" }).unwrap();
+                captured.with_state_mut(|state| macro_of_a.call(state, &[])).map(|v| v.to_string()).map_err(|e| format!("{:?}", e.kind()))
+            }).join().unwrap()
+        });
+        out.push(serde_json::json!({"scenario": "macro_of_another_threads_render", "check": "state_ids", "ok": result.is_err(),
+            "detail": format!("a macro created by render A on one thread, called through the state of render B on another thread: {:?} (an error is expected)", result)}));
+    }
     // ---- fuel: straight-line templates; the caller compares `consumed` with the number of charged instructions
     for (name, src) in [
         ("fuel_text_and_prints", "a{{ x }}b{{ y }}c"),
